@@ -93,6 +93,47 @@ int main(int argc, char** argv) {
         printf("STATS %s\n", j.dump().c_str());
         return 0;
     }
+    if (cmd == "diff") {
+        std::string list = arg(argc, argv, "--variants", "B,M");
+        std::vector<const Variant*> vs;
+        size_t pos = 0;
+        while (pos <= list.size()) {
+            size_t q = list.find(',', pos);
+            if (q == std::string::npos) q = list.size();
+            const Variant* v = find_variant(list.substr(pos, q - pos));
+            if (!v) { fprintf(stderr, "unknown variant %s\n", list.substr(pos, q - pos).c_str()); return 2; }
+            vs.push_back(v);
+            pos = q + 1;
+        }
+        const Profile& pf = profile_by_name(arg(argc, argv, "--profile", "plain"));
+        std::string mode = arg(argc, argv, "--mode", "backend");
+        uint64_t seed = strtoull(arg(argc, argv, "--seed", "1").c_str(), nullptr, 10);
+        long count = atol(arg(argc, argv, "--count", "100").c_str());
+        long start = atol(arg(argc, argv, "--start", "0").c_str());
+        int max_report = atoi(arg(argc, argv, "--max-report", "5").c_str());
+        RunStats st;
+        auto t0 = std::chrono::steady_clock::now();
+        int reported = 0;
+        for (long i = start; i < start + count; ++i) {
+            Plan plan = generate_plan(d, *vs[i % vs.size()], pf, mix(seed, (uint64_t)i));
+            plan.variant = list;
+            Outcome oc = evaluate_diff(d, vs, pf, plan, mode, &st);
+            if (oc.verdict != V_OK && reported < max_report) {
+                Outcome m = shrink_diff(d, vs, pf, plan, mode, oc);
+                ++reported;
+                JV j = outcome_to_json(d, *vs[0], m, i);
+                j.set("variant", list); j.set("mode", mode);
+                printf("DIVERGENCE %s\n", j.dump().c_str());
+                fflush(stdout);
+            }
+        }
+        double wall = std::chrono::duration<double>(std::chrono::steady_clock::now() - t0).count();
+        JV j = stats_to_json(st);
+        j.set("wall_s", wall); j.set("variant", list); j.set("profile", pf.name); j.set("seed", (long long)seed);
+        j.set("start", (long long)start); j.set("count", (long long)count); j.set("spec", d.name); j.set("mode", mode);
+        printf("STATS %s\n", j.dump().c_str());
+        return 0;
+    }
     if (cmd == "dump") {
         std::string vn = arg(argc, argv, "--variant", "B");
         const Variant* v = find_variant(vn);
@@ -115,6 +156,34 @@ int main(int argc, char** argv) {
         std::stringstream ss; ss << f.rdbuf();
         JV j = jparse(ss.str());
         Plan plan = plan_from_json(j.at("plan"));
+        if (j.has("mode")) {
+            std::vector<const Variant*> vs;
+            std::string list = plan.variant;
+            size_t pos = 0;
+            while (pos <= list.size()) {
+                size_t q = list.find(',', pos);
+                if (q == std::string::npos) q = list.size();
+                const Variant* v = find_variant(list.substr(pos, q - pos));
+                if (!v) { fprintf(stderr, "unknown variant\n"); return 2; }
+                vs.push_back(v);
+                pos = q + 1;
+            }
+            const Profile& pf = profile_by_name(plan.profile);
+            Outcome oc = evaluate_diff(d, vs, pf, plan, j.str("mode"), nullptr);
+            JV out = outcome_to_json(d, *vs[0], oc, -1);
+            out.set("variant", list);
+            printf("REPLAY %s\n", out.dump().c_str());
+            if (has_flag(argc, argv, "--verbose")) {
+                for (size_t k = 0; k < vs.size(); ++k) {
+                    World w(d, [&](int) { return vs[k]->make(); }, false);
+                    w.observe_each = pf.observe_each;
+                    w.run(plan);
+                    printf("---- %s\n", vs[k]->name.c_str());
+                    for (auto& r : w.env.trace) if (r.kind <= K_RET || r.kind == K_OP) printf("   %s\n", rec_to_string(d, r).c_str());
+                }
+            }
+            return oc.verdict == V_OK ? 0 : 1;
+        }
         const Variant* v = find_variant(plan.variant);
         if (!v) { fprintf(stderr, "unknown variant %s\n", plan.variant.c_str()); return 2; }
         const Profile& pf = profile_by_name(plan.profile);
